@@ -101,6 +101,7 @@ type vWorld struct {
 	leaseNet *mock.Network[TxRequest, types.Nil]
 	recNet   *mock.Network[RecoveryRequest, RecoveryResponse]
 	thr      int
+	live     bool // real feedback transport and a 5 ms gossip interval (TestVerifKVLive)
 	nodes    map[int]*vNode
 	mu       sync.Mutex
 	fbs      []vFb
@@ -214,18 +215,23 @@ func (w *vWorld) open(id int, members []int) error {
 	st.SetHost(w.ctx, node.Node{Key: node.Key(id), Address: vAddr(id)})
 	n.st = st
 	a := vAddr(id)
+	var fbc FeedbackTransportClient = &vFbClient{UnaryClient: w.fbNet.UnaryClient(), w: w, from: id}
+	interval := 1000 * time.Hour
+	if w.live {
+		fbc, interval = w.fbNet.UnaryClient(), 5*time.Millisecond
+	}
 	db, err := Open(w.ctx, Config{
 		Cluster:                 &cluster.Cluster{Store: st},
 		Engine:                  n.eng,
 		BatchTransportClient:    w.opNet.UnaryClient(),
 		BatchTransportServer:    w.opNet.UnaryServer(a),
-		FeedbackTransportClient: &vFbClient{UnaryClient: w.fbNet.UnaryClient(), w: w, from: id},
+		FeedbackTransportClient: fbc,
 		FeedbackTransportServer: w.fbNet.UnaryServer(a),
 		LeaseTransportClient:    &vLeaseClient{UnaryClient: w.leaseNet.UnaryClient(), w: w},
 		LeaseTransportServer:    w.leaseNet.UnaryServer(a),
 		RecoveryTransportClient: w.recNet.StreamClient(),
 		RecoveryTransportServer: w.recNet.StreamServer(a),
-		GossipInterval:          1000 * time.Hour,
+		GossipInterval:          interval,
 		RecoveryThreshold:       w.thr,
 	})
 	if err != nil {
@@ -543,6 +549,7 @@ func (g *vIngress) replay(hi int, h []vStep, finals *sync.Map) *vBad {
 			marks = append(marks, vSubMark{s, s.nBatches()})
 		}
 		var expRaw string
+		var pinned *vBad // disagreement on something the properties do not state: reported last
 		txlh := 0
 		switch st.A {
 		case "sub":
@@ -582,10 +589,7 @@ func (g *vIngress) replay(hi int, h []vStep, finals *sync.Map) *vBad {
 				exp = append(exp, fmt.Sprintf("%s->%d", o.String(), st.From))
 			}
 			if strings.Join(got, " ") != strings.Join(exp, " ") || len(fbs) > 1 {
-				if b := checkEngine(si, st.Eng); b != nil {
-					return b
-				}
-				return bad(si, "feedback", strings.Join(exp, " "), fmt.Sprintf("%s (%d msgs)", strings.Join(got, " "), len(fbs)))
+				pinned = bad(si, "feedback", strings.Join(exp, " "), fmt.Sprintf("%s (%d msgs)", strings.Join(got, " "), len(fbs)))
 			}
 		case "local":
 			nlocal++
@@ -607,10 +611,7 @@ func (g *vIngress) replay(hi int, h []vStep, finals *sync.Map) *vBad {
 				lt := append([]address.Address{}, w.leaseTo[lease0:]...)
 				w.mu.Unlock()
 				if len(ls) != 1 || vAddrID(lt[0]) != st.To || len(ls[0].Operations) != 1 || int(ls[0].Operations[0].Leaseholder) != st.To {
-					if b := checkEngine(si, st.Eng); b != nil {
-						return b
-					}
-					return bad(si, "forward", fmt.Sprintf("one lease request to %d", st.To), fmt.Sprintf("%d requests %v", len(ls), lt))
+					pinned = bad(si, "forward", fmt.Sprintf("one lease request to %d", st.To), fmt.Sprintf("%d requests %v", len(ls), lt))
 				}
 			} else {
 				o := vOp{K: st.K, Ver: st.Ver, Lh: host.id, Var: st.Var}
@@ -664,6 +665,9 @@ func (g *vIngress) replay(hi int, h []vStep, finals *sync.Map) *vBad {
 			if exp != "" {
 				g.stats["notes_"+m.s.kind]++
 			}
+		}
+		if pinned != nil {
+			return pinned
 		}
 	}
 	// barrier: a sentinel request travels behind everything still in the pipeline (accepted ->
@@ -1499,6 +1503,7 @@ func (c *vCluster) restart(n int) {
 		}
 	}
 	c.trace = append(c.trace, c.ev(vEv{Ev: "restart", N: n}))
+	c.markSubs()
 	mem := []int{}
 	for i := 1; i <= c.n; i++ {
 		mem = append(mem, i)
@@ -1631,7 +1636,7 @@ func (c *vCluster) runScript(s vScript) {
 				}
 				c.deliver(i)
 			} else {
-				c.broken = fmt.Sprintf("script: no message %v", st)
+				c.stats["script_miss"]++ // the expected message does not exist on this tree: go on
 			}
 		case "drop":
 			if i := c.findMsg(st); i >= 0 {
@@ -1909,6 +1914,143 @@ func TestVerifKVCluster(t *testing.T) {
 	enc := json.NewEncoder(of)
 	_ = enc.Encode(map[string]any{"summary": true, "scenarios": len(res)})
 	for _, r := range res {
+		_ = enc.Encode(r)
+	}
+}
+
+// Live run: the real periodic emitter, random peer choice and feedback transport on 2 nodes.
+// Writes from both nodes (also to each other's keys: forwarded), then the engines must reach
+// the latest write of every key within VERIF_LIVE_MS; not converging in time is reported as
+// "timeout" (inconclusive for the driver), a regress observed while polling as "regress".
+func TestVerifKVLive(t *testing.T) {
+	out := os.Getenv("VERIF_OUT")
+	if out == "" {
+		t.Skip("VERIF_OUT not set")
+	}
+	seed, _ := strconv.ParseInt(os.Getenv("VERIF_SEED"), 10, 64)
+	ms, _ := strconv.Atoi(os.Getenv("VERIF_LIVE_MS"))
+	if ms == 0 {
+		ms = 20000
+	}
+	rounds, _ := strconv.Atoi(os.Getenv("VERIF_LIVE_ROUNDS"))
+	if rounds == 0 {
+		rounds = 5
+	}
+	rnd := rand.New(rand.NewSource(seed))
+	type res struct {
+		Round      int    `json:"round"`
+		R          string `json:"r"`
+		What       string `json:"what"`
+		Writes     int    `json:"writes"`
+		ConvergeMs int64  `json:"converge_ms"`
+	}
+	var all []res
+	for r := 0; r < rounds; r++ {
+		w := vNewWorld(3)
+		w.live = true
+		if err := w.open(1, []int{1}); err != nil {
+			t.Fatal(err)
+		}
+		if err := w.open(2, []int{1, 2}); err != nil {
+			t.Fatal(err)
+		}
+		w.nodes[1].addMember(2)
+		keys := []string{"k1", "k2", "k3", "k4"}
+		owner := map[string]int{"k1": 1, "k2": 2, "k3": 1, "k4": 2}
+		latest := map[string]string{}
+		nw := 0
+		rr := res{Round: r, R: "ok"}
+		prev := map[string]vDig{}
+		check := func() {
+			for n := 1; n <= 2; n++ {
+				for _, k := range keys {
+					d, _, _ := vProject(w.nodes[n].eng, k)
+					id := fmt.Sprintf("%d/%s", n, k)
+					if p, ok := prev[id]; ok && p.Var != "none" && p != d && !vNewer(d, p) {
+						rr.R, rr.What = "regress", fmt.Sprintf("node %d key %s: %+v replaced by %+v", n, k, p, d)
+					}
+					prev[id] = d
+				}
+			}
+		}
+		for i := 0; i < 30; i++ {
+			k := keys[rnd.Intn(len(keys))]
+			n := 1 + rnd.Intn(2)
+			if _, _, has := vProject(w.nodes[n].eng, k); !has && latest[k] == "" && owner[k] != n {
+				n = owner[k]
+			}
+			if d, _, _ := vProject(w.nodes[n].eng, k); d.Var == "none" && owner[k] != n {
+				continue // only the owner creates a key (one leaseholder per key)
+			}
+			nw++
+			tok := fmt.Sprintf("%s#%d", k, nw)
+			var err error
+			if rnd.Intn(5) == 0 {
+				err = w.nodes[n].db.Delete(w.ctx, []byte(k))
+				tok = ""
+			} else {
+				err = w.nodes[n].db.Set(w.ctx, []byte(k), []byte(tok))
+			}
+			if err != nil {
+				rr.R, rr.What = "error", err.Error()
+				break
+			}
+			latest[k] = tok
+			if latest[k] == "" {
+				latest[k] = "<deleted>"
+			}
+			check()
+			time.Sleep(time.Duration(rnd.Intn(4)) * time.Millisecond)
+		}
+		rr.Writes = nw
+		t0 := time.Now()
+		conv := vWait(func() bool {
+			check()
+			for n := 1; n <= 2; n++ {
+				for _, k := range keys {
+					if latest[k] == "" {
+						continue
+					}
+					_, val, has := vProject(w.nodes[n].eng, k)
+					if latest[k] == "<deleted>" {
+						if has {
+							return false
+						}
+					} else if !has || val != latest[k] {
+						return false
+					}
+				}
+			}
+			return true
+		}, time.Duration(ms)*time.Millisecond)
+		rr.ConvergeMs = time.Since(t0).Milliseconds()
+		if !conv && rr.R == "ok" {
+			rr.R, rr.What = "timeout", "engines did not reach the latest writes"
+			c := &vCluster{w: w, n: 2, keys: keys}
+			if c.allInfected() == 0 {
+				// nothing left to gossip: the cluster quiesced in a diverged state
+				var diff []string
+				for _, k := range keys {
+					d1, _, _ := vProject(w.nodes[1].eng, k)
+					d2, _, _ := vProject(w.nodes[2].eng, k)
+					if d1 != d2 {
+						diff = append(diff, fmt.Sprintf("%s: node1 %+v node2 %+v", k, d1, d2))
+					}
+				}
+				rr.R, rr.What = "diverged-quiesced", strings.Join(diff, "; ")
+			}
+		}
+		all = append(all, rr)
+		w.closeAll()
+	}
+	of, err := os.Create(out)
+	if err != nil {
+		t.Fatal(err)
+	}
+	defer of.Close()
+	enc := json.NewEncoder(of)
+	_ = enc.Encode(map[string]any{"summary": true, "rounds": len(all)})
+	for _, r := range all {
 		_ = enc.Encode(r)
 	}
 }
